@@ -378,3 +378,40 @@ def control_dependent_on(body, site_block, pred, conds=None):
         if any(reach) and not all(reach):
             hits.append(src)
     return bool(hits), hits
+
+
+def io_window_rule(ctx, rule):
+    """(added after seeded mutant C10-s1) every place where the buffered log's IO task persists the
+    not-yet-durable window reads it as get_entries_range(durable_index+1 ..= max_index), and any guard relating
+    the two ends lets the single-entry window (start == end) through."""
+    F = ctx.F
+    bp = [b for b in F.find(r"BufferedRaftLog.*::batch_processor$") if b.parent is None]
+    ctx.floor(rule, len(bp), 1, "BufferedRaftLog::batch_processor")
+    n = 0
+    for root in bp:
+        for b in F.group_bodies(root):
+            conds = None
+            for (bi, t) in calls_matching(b, r"LogStore::persist_entries$"):
+                arg = Slice(F, b, through_calls=True).operand(t["args"][1])
+                if not arg.has_call(r"get_entries_range$") or not arg.has_field("BufferedRaftLog", "durable_index"):
+                    continue  # entries handed over by a command / catch-up from a local high-water mark, not the durable window
+                n += 1
+                if conds is None:
+                    conds = edge_conditions(b)
+                is_start = lambda s: s.has_field("BufferedRaftLog", "durable_index") and not s.has_field("BufferedRaftLog", "max_index")
+                is_end = lambda s: s.has_field("BufferedRaftLog", "max_index") and not s.has_field("BufferedRaftLog", "durable_index")
+                window_ok = arg.has_field("BufferedRaftLog", "durable_index") and arg.has_field("BufferedRaftLog", "max_index") and "1" in arg.consts()
+                bad_guard = None
+                for eid, c in conds.items():
+                    rel = cmp_rel(F, c, is_start, is_end)
+                    if rel is None:
+                        continue
+                    g, _w, _ = guarded_by(b, bi, lambda x, c=c: x is c, conds)
+                    if g and rel not in ("<=",):
+                        bad_guard = rel
+                ctx.check(rule, "%s#persist-window[%d]" % (fkey(root), n - 1), window_ok and bad_guard is None,
+                          "IO task persists (durable_index, max_index] and the guard admits a single pending entry",
+                          "the IO task's pending-window persist is %s: with exactly one entry above durable_index (start == end) nothing is written - "
+                          "e.g. on graceful shutdown the last acknowledged entry is missing from the log after restart"
+                          % ("guarded by `start %s end`" % bad_guard if bad_guard else "not reading durable_index+1 ..= max_index"), loc(b, bi))
+    ctx.floor(rule, n, 3, "window persists in the IO task (notify arm, shutdown arm, safety timer)")
